@@ -184,8 +184,8 @@ class Ref:
 
 
 OP_PRIORITY = [("quotient", myokit.Quotient), ("remainder", myokit.Remainder), ("log10", myokit.Log10), ("ceil", myokit.Ceil), ("floor", myokit.Floor),
-               ("piecewise", myokit.Piecewise), ("if", myokit.If), ("not", myokit.Not), ("and", myokit.And), ("or", myokit.Or), ("eq", myokit.Equal),
-               ("ne", myokit.NotEqual), ("ge", myokit.MoreEqual), ("le", myokit.LessEqual), ("gt", myokit.More), ("lt", myokit.Less), ("abs", myokit.Abs),
+               ("not", myokit.Not), ("and", myokit.And), ("or", myokit.Or), ("eq", myokit.Equal), ("ne", myokit.NotEqual), ("ge", myokit.MoreEqual),
+               ("le", myokit.LessEqual), ("piecewise", myokit.Piecewise), ("if", myokit.If), ("gt", myokit.More), ("lt", myokit.Less), ("abs", myokit.Abs),
                ("sqrt", myokit.Sqrt), ("power", myokit.Power), ("tan", myokit.Tan), ("asin", myokit.ASin), ("acos", myokit.ACos), ("atan", myokit.ATan),
                ("sin", myokit.Sin), ("cos", myokit.Cos), ("exp", myokit.Exp), ("log", myokit.Log), ("prefix-minus", myokit.PrefixMinus),
                ("prefix-plus", myokit.PrefixPlus), ("divide", myokit.Divide), ("minus", myokit.Minus), ("times", myokit.Multiply), ("plus", myokit.Plus)]
@@ -248,10 +248,12 @@ def source(case):
 
 
 def fval(x):
-    try:
-        return float(x)
-    except Exception:  # noqa: BLE001
-        return float("nan")
+    for f in (float, lambda e: float(e.doit()), lambda e: float(e.evalf())):
+        try:
+            return f(x)
+        except Exception:  # noqa: BLE001
+            continue
+    return float("nan")
 
 
 def check(case):
@@ -326,6 +328,9 @@ def check_myokit(case, res, d):
         elif not is_num and n in gint and not gint[n].expr.free_symbols:
             got = fval(gint[n].expr)
             cm.note(res, "literal-constant-imported-as-intermediate")
+            if math.isnan(got):  # the harness cannot evaluate the unevaluated SymPy expression: covered by the rhs comparison
+                cm.note(res, "literal-constant-not-evaluable")
+                continue
         else:
             add("C15:constant-missing", f"Myokit constant {v.qname()} = {v.rhs().code()} is no gotranx parameter `{n}`", base_inp, n, sorted(gpar))
             continue
@@ -338,7 +343,15 @@ def check_myokit(case, res, d):
             (f" (the time variable {ref.tvar.qname()} became a parameter)" if tn else ""), base_inp, sorted(cnames), extra)
     # ---- 3. save, reload, numpy rhs ---------------------------------------------------------------
     pts = case.get("points") or ref.points(case.get("pseed", 0), int(case.get("npts", 4)))
+    stage = case.get("_stage", 4)
+    if stage < 3:
+        return res
+    nf = len(res["failures"])
     mod = reload_and_compare(case, res, ref, ode, d, base_inp, pts, key, add)
+    if stage < 4:
+        return res
+    if any(f["signature"].startswith("C15:rhs-") for f in res["failures"][nf:]):
+        mod = None  # exporting a reloaded model that is already wrong tells nothing new
     # ---- 4. back to Myokit ----------------------------------------------------------------------------
     to_myokit(res, ode, "imported", base_inp, add, ref=ref, units_of_ref=True, pts=pts[:2])
     if mod is not None:
@@ -367,6 +380,9 @@ def reload_and_compare(case, res, ref, ode, d, base_inp, pts, key, add):
             ks = sorted({k for k in (name_construct(ref, v) for v in vs) if k})
             sub = ":" + (ks[0] if ks else "other")
             detail = f" | `{m.group(1)}` is the local name of {[v.qname() + ' -> ' + nm[v] for v in vs]}"
+        m = re.search(r"Previous tokens: \[Token\('VARIABLE', '(\w+)'\)\]", str(e))
+        if m and not sub:
+            sub = ":after-" + m.group(1)
         sig = f"C15:reload-raises:{cm.exc_site(e)}"
         add(sig + sub, "the .ode file saved from the imported model cannot be loaded", base_inp, "a loadable .ode file", cm.exc_name(e), cm.short(e) + detail, base=sig)
         return None
@@ -454,7 +470,7 @@ def keyerror_kind(ode, k, ref):
             if sym.name == k and sym != sp.Symbol(k):
                 return "symbol-assumptions"
     defined = {x.name for x in list(ode.states) + list(ode.parameters) + list(ode.intermediates)}
-    return "defined-symbol" if k in defined else "undefined-symbol"
+    return "defined-symbol" if k in defined else "time-symbol" if k == "t" else "undefined-symbol"
 
 
 def to_myokit(res, ode, label, base_inp, add, ref=None, units_of_ref=False, expect=None, pts=()):
@@ -541,7 +557,8 @@ def to_myokit(res, ode, label, base_inp, add, ref=None, units_of_ref=False, expe
         bad = {v.name(): float(g) for v, g in zip(mst, got) if math.isfinite(float(g)) and not cm.close(g, want[v.name()], 1e-7, 1e-12 * scale)}
         if bad:
             n0 = sorted(bad)[0]
-            add("C15:to-myokit-rhs-differs", f"dot({n0}) of the Myokit model exported from the {label} model differs", dict(inp, points=[pt]),
+            kind = ":" + construct(ref, [v for v in ref.states if ref.name[v] in bad]) if ref is not None else ""
+            add("C15:to-myokit-rhs-differs" + kind, f"dot({n0}) of the Myokit model exported from the {label} model differs", dict(inp, points=[pt]),
                 {k: want[k] for k in bad}, bad, f"exported: {var(n0).rhs().code()[:300]}")
             return
 
@@ -602,10 +619,17 @@ def reductions(text):
     model, protocol, _ = myokit.parse(text.splitlines())
 
     def render(m, p):
+        for v in m.variables(deep=True):  # never turn a condition into a constant one (C01's degenerate conditionals)
+            for e in v.rhs().walk():
+                if isinstance(e, (myokit.Equal, myokit.NotEqual, myokit.More, myokit.Less, myokit.MoreEqual, myokit.LessEqual)) and e.is_constant():
+                    raise ValueError("degenerate")
         return m.code() + ("\n" + p.code() if p is not None else "")
 
     if protocol is not None:
-        yield render(model, None)
+        try:
+            yield render(model, None)
+        except ValueError:
+            pass
     qn = [v.qname() for v in model.variables(deep=True) if v.binding() is None]
     for q in reversed(qn):
         try:
@@ -651,12 +675,14 @@ def reductions(text):
                 continue
 
 
-def shrink_job(f, max_seconds=14.0):
+def shrink_job(f, max_seconds=8.0):
     base, inp = f["_shrink"]["base"], f["input"]
     best, best_f, t_end = inp.get("mmt"), f, time.time() + max_seconds
     if not best:
         return f
     rest = {k: v for k, v in inp.items() if k not in ("mmt", "points", "export") and not k.startswith("_")}
+    stage = 2 if base.startswith(("C15:import-", "C15:name-", "C15:state-", "C15:constant-", "C15:parameter-")) and "after-reload" not in base else \
+        3 if base.startswith(("C15:save-", "C15:reload-", "C15:codegen-", "C15:generated-", "C15:rhs-")) or "after-reload" in base else 4
     progress = True
     while progress and time.time() < t_end:
         progress = False
@@ -666,7 +692,7 @@ def shrink_job(f, max_seconds=14.0):
                     break
                 if len(text) >= len(best) + 40:
                     continue
-                r = check(dict(rest, mmt=text, _noshrink=True))
+                r = check(dict(rest, mmt=text, _noshrink=True, _stage=stage))
                 hit = [g for g in r["failures"] if g["signature"].startswith(base)]
                 if hit and not r["errors"]:
                     best, best_f, progress = text, hit[0], True
